@@ -13,21 +13,21 @@ import (
 // ---- the independent reference planner (written from the property text) ----
 
 const (
-	occFile     = 1 // file-like: regular file, config, symlink, ghost, doc, ...
-	occDir      = 2 // explicitly declared directory
-	occImplied  = 3 // ancestor directory that is only implied
-	occTreeFile = 4 // file-like placed by a tree expansion
-	occTreeDir  = 5 // directory placed by a tree expansion
+	verifOccFile     = 1 // file-like: regular file, config, symlink, ghost, doc, ...
+	verifOccDir      = 2 // explicitly declared directory
+	verifOccImplied  = 3 // ancestor directory that is only implied
+	verifOccTreeFile = 4 // file-like placed by a tree expansion
+	verifOccTreeDir  = 5 // directory placed by a tree expansion
 )
 
-type occupant struct {
+type verifOccupant struct {
 	path  string // canonical absolute path, no trailing slash
 	kind  int
 	entry int // index of the raw entry it comes from
 	typ   string
 }
 
-type planEntry struct {
+type verifPlanEnt struct {
 	typ      string
 	packager string
 	canon    string // canonical destination "/a" or "/a/b"
@@ -43,7 +43,7 @@ func verifIsAncestor(a, b string) bool { // a is a proper ancestor of b
 //verif:summarize
 func verifSamePath(a, b string) bool { return a == b }
 
-func verifRelevant(packager string, e planEntry) bool {
+func verifRelevant(packager string, e verifPlanEnt) bool {
 	if e.packager != "" && e.packager != packager {
 		return false
 	}
@@ -57,21 +57,21 @@ func verifRelevant(packager string, e planEntry) bool {
 }
 
 // verifExpand lists what one relevant entry places into the package.
-func verifExpand(i int, e planEntry) []occupant {
+func verifExpand(i int, e verifPlanEnt) []verifOccupant {
 	c := e.canon
 	switch e.typ {
 	case TypeImplicitDir:
 		return nil
 	case TypeDir:
-		return []occupant{{c, occDir, i, TypeDir}}
+		return []verifOccupant{{c, verifOccDir, i, TypeDir}}
 	case TypeRPMGhost, TypeRPMDoc, TypeRPMLicence, TypeRPMLicense, TypeRPMReadme, TypeDebChangelog, TypeSymlink:
-		return []occupant{{c, occFile, i, e.typ}}
+		return []verifOccupant{{c, verifOccFile, i, e.typ}}
 	case TypeTree:
-		return []occupant{
-			{c, occTreeDir, i, TypeDir},
-			{c + "/sub", occTreeDir, i, TypeDir},
-			{c + "/sub/y", occTreeFile, i, TypeFile},
-			{c + "/x", occTreeFile, i, TypeFile},
+		return []verifOccupant{
+			{c, verifOccTreeDir, i, TypeDir},
+			{c + "/sub", verifOccTreeDir, i, TypeDir},
+			{c + "/sub/y", verifOccTreeFile, i, TypeFile},
+			{c + "/x", verifOccTreeFile, i, TypeFile},
 		}
 	}
 	// file, config*, "": glob expansion
@@ -82,50 +82,50 @@ func verifExpand(i int, e planEntry) []occupant {
 	switch e.src {
 	case 1:
 		if e.trailing {
-			return []occupant{{c + "/f", occFile, i, t}}
+			return []verifOccupant{{c + "/f", verifOccFile, i, t}}
 		}
-		return []occupant{{c, occFile, i, t}}
+		return []verifOccupant{{c, verifOccFile, i, t}}
 	case 3: // an on-disk symlink is shipped as a symlink
 		if e.trailing {
-			return []occupant{{c + "/l", occFile, i, TypeSymlink}}
+			return []verifOccupant{{c + "/l", verifOccFile, i, TypeSymlink}}
 		}
-		return []occupant{{c, occFile, i, TypeSymlink}}
+		return []verifOccupant{{c, verifOccFile, i, TypeSymlink}}
 	case 2:
 		if e.trailing { // into that directory, flattened
-			return []occupant{{c + "/y", occFile, i, t}, {c + "/x", occFile, i, t}}
+			return []verifOccupant{{c + "/y", verifOccFile, i, t}, {c + "/x", verifOccFile, i, t}}
 		}
-		return []occupant{{c + "/sub/y", occFile, i, t}, {c + "/x", occFile, i, t}}
+		return []verifOccupant{{c + "/sub/y", verifOccFile, i, t}, {c + "/x", verifOccFile, i, t}}
 	}
 	return nil
 }
 
-type planVerdict struct {
+type verifPlanVerdict struct {
 	sameKind  bool // two file-likes, or two explicit dirs, on one path (no tree involved)
 	fileDir   bool // a file-like and a directory (explicit or implied) on one path (no tree involved)
 	treeRoot  bool // the root directory of a tree and a declared directory on one path (either order)
 	treeOver  bool // a tree expanded over what an EARLIER entry placed (addTree does not look)
 	treeUnder bool // a LATER entry lands on what a tree placed, same kind on the same path
-	treeOther bool // a later entry vs a tree occupant, file-like against directory on one path
+	treeOther bool // a later entry vs a tree verifOccupant, file-like against directory on one path
 }
 
-func isFileKind(k int) bool { return k == occFile || k == occTreeFile }
-func isTreeKind(k int) bool { return k == occTreeFile || k == occTreeDir }
+func verifIsFileKind(k int) bool { return k == verifOccFile || k == verifOccTreeFile }
+func verifIsTreeKind(k int) bool { return k == verifOccTreeFile || k == verifOccTreeDir }
 
-func verifOracle(occ []occupant, plan []planEntry) planVerdict {
-	var r planVerdict
+func verifOracle(occ []verifOccupant, plan []verifPlanEnt) verifPlanVerdict {
+	var r verifPlanVerdict
 	for i := 0; i < len(occ); i++ {
 		for j := i + 1; j < len(occ); j++ {
 			a, b := occ[i], occ[j]
-			if a.entry == b.entry && isTreeKind(a.kind) {
+			if a.entry == b.entry && verifIsTreeKind(a.kind) {
 				continue // a tree never collides with itself
 			}
 			same := verifSamePath(a.path, b.path)
-			af, bf := isFileKind(a.kind), isFileKind(b.kind)
+			af, bf := verifIsFileKind(a.kind), verifIsFileKind(b.kind)
 			beneath := !same && (af && verifIsAncestor(a.path, b.path) || bf && verifIsAncestor(b.path, a.path))
 			if !same && !beneath {
 				continue
 			}
-			at, bt := isTreeKind(a.kind), isTreeKind(b.kind)
+			at, bt := verifIsTreeKind(a.kind), verifIsTreeKind(b.kind)
 			if !at && !bt {
 				if same && af == bf {
 					r.sameKind = true
@@ -146,11 +146,11 @@ func verifOracle(occ []occupant, plan []planEntry) planVerdict {
 			}
 			rootOfTree := tree.path == plan[tree.entry].canon
 			switch {
-			case same && rootOfTree && other.kind == occDir:
+			case same && rootOfTree && other.kind == verifOccDir:
 				r.treeRoot = true
 			case tree.entry > other.entry:
 				r.treeOver = true
-			case same && isFileKind(tree.kind) == isFileKind(other.kind):
+			case same && verifIsFileKind(tree.kind) == verifIsFileKind(other.kind):
 				r.treeUnder = true
 			default:
 				r.treeOther = true
@@ -189,8 +189,8 @@ func verifPlanFS() []string {
 var verifPlanTypes = []string{TypeFile, TypeDir, TypeSymlink, TypeConfig, TypeTree, TypeRPMGhost, TypeDebChangelog,
 	TypeConfigNoReplace, TypeConfigMissingOK, TypeRPMDoc, TypeRPMLicence, TypeRPMLicense, TypeRPMReadme, TypeImplicitDir, ""}
 
-func verifPlanEntry(name string, ntypes int, srcs []string) (planEntry, *Content) {
-	var e planEntry
+func verifPlanEntry(name string, ntypes int, srcs []string) (verifPlanEnt, *Content) {
+	var e verifPlanEnt
 	e.typ = verifPlanTypes[v.NondetChoice(name+".type", ntypes)]
 	if !verifSmallPlan {
 		e.packager = verifPackagers[v.NondetChoice(name+".packager", 3)]
@@ -237,22 +237,22 @@ func verifPlanEntry(name string, ntypes int, srcs []string) (planEntry, *Content
 
 func verifKindOfType(t string) int {
 	if t == TypeDir || t == TypeImplicitDir {
-		return occDir
+		return verifOccDir
 	}
-	return occFile
+	return verifOccFile
 }
 
 // verifCheckPlan asserts the success-side clauses of the property on a prepared plan.
-func verifCheckPlan(res Contents, occ []occupant) {
+func verifCheckPlan(res Contents, occ []verifOccupant) {
 	// unique, absolute, clean, strictly sorted, parents present and earlier
 	okClean, okSorted, okParents := true, true, true
 	for i, c := range res {
 		d := c.Destination
 		if c.Type == TypeDir || c.Type == TypeImplicitDir {
-			if len(d) < 2 || d[len(d)-1] != '/' || !isCleanAbs(d[:len(d)-1]) {
+			if len(d) < 2 || d[len(d)-1] != '/' || !verifIsCleanAbs(d[:len(d)-1]) {
 				okClean = false
 			}
-		} else if !isCleanAbs(d) {
+		} else if !verifIsCleanAbs(d) {
 			okClean = false
 		}
 		if i > 0 && !(res[i-1].Destination < d) {
@@ -288,7 +288,7 @@ func verifCheckPlan(res Contents, occ []occupant) {
 	declared := 0
 	for _, o := range occ {
 		want := o.path
-		dir := o.kind == occDir || o.kind == occTreeDir
+		dir := o.kind == verifOccDir || o.kind == verifOccTreeDir
 		if dir {
 			want += "/"
 		}
@@ -314,7 +314,7 @@ func verifCheckPlan(res Contents, occ []occupant) {
 	extra := false
 	for _, c := range res {
 		if c.Type == TypeImplicitDir {
-			// must be an ancestor of some occupant
+			// must be an ancestor of some verifOccupant
 			p := c.Destination[:len(c.Destination)-1]
 			anc := false
 			for _, o := range occ {
@@ -330,7 +330,7 @@ func verifCheckPlan(res Contents, occ []occupant) {
 		hit := false
 		for _, o := range occ {
 			want := o.path
-			if o.kind == occDir || o.kind == occTreeDir {
+			if o.kind == verifOccDir || o.kind == verifOccTreeDir {
 				want += "/"
 			}
 			if c.Destination == want {
@@ -352,7 +352,7 @@ func verifPlanOpt(k, ntypes int, small bool) {
 	srcs := verifPlanFS()
 	packager := []string{"deb", "rpm", "apk"}[v.NondetChoice("packager", 3)]
 	var raw Contents
-	var plan []planEntry
+	var plan []verifPlanEnt
 	for i := 0; i < k; i++ {
 		e, c := verifPlanEntry([]string{"e0", "e1", "e2"}[i], ntypes, srcs)
 		plan = append(plan, e)
@@ -361,7 +361,7 @@ func verifPlanOpt(k, ntypes int, small bool) {
 	res, err := PrepareForPackager(raw, 0o022, packager, false, time.Unix(1700000000, 0).UTC())
 	v.Reach("K4.ran")
 
-	var occ []occupant
+	var occ []verifOccupant
 	for i, e := range plan {
 		if verifRelevant(packager, e) {
 			occ = append(occ, verifExpand(i, e)...)
